@@ -503,3 +503,12 @@ Qed.
 Theorem serde_rel_absolute_refuted : serde_rel_checks_absolute = false ->
   serde_de_rel None [97; 46]%N = Ok [1; 97]%N /\ rel_from_chars None [97; 46]%N = Err T_AbsoluteName.
 Proof. intros H. unfold serde_de_rel. rewrite H. split; reflexivity. Qed.
+
+(* both special cases are in the source (T1): the round trip holds for every name, the root included *)
+Theorem uncertain_display_parse_roundtrip_full n : valid_abs n ->
+  uncertain_from_chars None (display_uncertain true n) = Ok (true, wire_abs n) /\
+  uncertain_from_chars None (display_uncertain false n) = Ok (false, wire_rel n).
+Proof.
+  intros Hv. destruct (uncertain_display_parse_roundtrip n) as [H1 H2]. split; [|apply H1; exact Hv].
+  apply H2; [exact Hv|]. right. reflexivity.
+Qed.
